@@ -28,7 +28,7 @@ rl = lambda v: {"op": "reload", "v": v}
 def scenarios(rng, n):
     out = []
     for i in range(n):
-        kind = rng.choice(["global", "perlayer", "env", "optglobal", "envmod", "envmod0", "envplf"])
+        kind = rng.choice(["global", "global", "perlayer", "env", "env", "optglobal", "envmod", "envmod0", "envplf"])
         nth = rng.choice([2, 2, 3])
         threads = []
         reloads = [1, 2] if rng.random() < 0.7 else [rng.choice([1, 2, 3])]
@@ -43,7 +43,7 @@ def scenarios(rng, n):
             for o in t1:
                 if o["op"] == "reload":
                     o["how"] = "modify_add"
-        elif rng.random() < 0.4:
+        elif rng.random() < 0.5:
             # the replacement goes through Handle::modify and yields to the scheduler while the write lock is held: an emitter
             # scheduled there really blocks on the handle's lock (or, if the code does not wait, is judged while the value is in flux)
             for o in t1:
